@@ -107,9 +107,11 @@ def compute_crop_calendar(
             # crop.FloweringEndCD = crop.FloweringEnd
             # crop.FloweringCD = crop.Flowering
         else:
+            # no flowering stage; FloweringCD is an input of this function (read above for
+            # determinate crops) and is left as the user gave it, so that deriving the
+            # calendar again gives the same result
             crop.FloweringEnd = ModelConstants.NO_VALUE
             crop.FloweringEndCD = ModelConstants.NO_VALUE
-            crop.FloweringCD = ModelConstants.NO_VALUE
 
         # Check if converting crop calendar to gdd mode
         if crop.SwitchGDD == 1:
